@@ -317,4 +317,28 @@ theorem compactLN_table (needLevel : Bool) (lnT : Nat) (ln1 : List Nat) (newIdx 
   cases needLevel <;> cases wf <;> simp only [h1, h2, h3, Bool.false_eq_true, ↓reduceIte, List.nil_append, List.length_append,
     List.length_cons, List.length_nil, List.append_assoc, List.cons_append] <;> simp
 
+
+/-- the translated `compactL0`: the overlapping tables of level 1 are read first (older data), then those of level 0 in the
+    order of the list (oldest first); the output is named while every input is still in the index; it is written before any
+    input file is removed; a failed write panics and removes nothing -/
+theorem compactL0_table (needLevel : Bool) (l0 l1 : List Nat) (newIdx : Nat) (wf : Bool) :
+    GenLevel.compactL0 needLevel l0 l1 newIdx wf [] =
+      if wf then none else
+      some (l1 ++ l0,
+        (if needLevel then [("new level", 0)] else []) ++ (l1.map fun e => ("fetch L1", e)) ++ (l0.map fun e => ("fetch L0", e)) ++
+        [("MergeVersions", l1.length + l0.length), ("discardStaleEntries", 0), ("filter.Build", 0), ("table.Build", 0),
+         ("name := maxLevelIdx(L1)+1", newIdx), ("PushBack L1", newIdx)] ++
+        (l0.map fun e => ("Remove handle L0", e)) ++ (l1.map fun e => ("Remove handle L1", e)) ++ [("writeTable L1", newIdx)] ++
+        (l0.map fun e => ("os.Remove L0", e)) ++ (l1.map fun e => ("os.Remove L1", e))) := by
+  unfold GenLevel.compactL0
+  simp only [Bool.false_eq_true, ↓reduceIte]
+  have a1 := fun (k : CK) dl ev => foldr_fetch "fetch L1" k l1 dl ev
+  have a0 := fun (k : CK) dl ev => foldr_fetch "fetch L0" k l0 dl ev
+  have r0 := fun (k : CK) dl ev => foldr_emit "Remove handle L0" k l0 dl ev
+  have r1 := fun (k : CK) dl ev => foldr_emit "Remove handle L1" k l1 dl ev
+  have o0 := fun (k : CK) dl ev => foldr_emit "os.Remove L0" k l0 dl ev
+  have o1 := fun (k : CK) dl ev => foldr_emit "os.Remove L1" k l1 dl ev
+  cases needLevel <;> cases wf <;> simp only [a1, a0, r0, r1, o0, o1, Bool.false_eq_true, ↓reduceIte, List.nil_append, List.length_append,
+    List.append_assoc, List.cons_append] <;> simp
+
 end LevelTie
